@@ -412,10 +412,17 @@ impl Interval {
         }
         let min = signed_min(&val1.0, &signed_min(&val2.0, &signed_min(&val3.0, &val4.0)));
         let max = signed_max(&val1.0, &signed_max(&val2.0, &signed_max(&val3.0, &val4.0)));
+        // The stride of an interval containing exactly one value has to be zero
+        // (e.g. if a strided interval gets multiplied with zero).
+        let stride = if min == max {
+            0
+        } else {
+            self.stride.gcd(rhs.stride)
+        };
         Interval {
             start: min,
             end: max,
-            stride: self.stride.gcd(rhs.stride),
+            stride,
         }
     }
 
